@@ -122,7 +122,13 @@ pub fn builtin_values() -> Vec<Expr> {
         v.push(if m < 0 { Expr::Prefix("-", b(Expr::Float { m: -m, e })) } else { Expr::Float { m, e } });
     }
     for s in ["", "a", "15", " 42 ", "-7", "+3", "3.14", "0.5", "2.75", "abc", "1e3", "12abc", "é", "  ", "007", "1_000",
-              "nan", "inf", "-0.25", "1.", ".5", "--1", "9999999999", "\t8\n", "ja", "{}"] {
+              "nan", "inf", "-0.25", "1.", ".5", "--1", "9999999999", "\t8\n", "ja", "{}",
+              // digit strings at and beyond the ends of the integer range, and beyond 2^63 / 2^64 (where a
+              // hand-written or wrapping conversion goes wrong)
+              "1152921504606846975", "1152921504606846976", "-1152921504606846976", "-1152921504606846977",
+              "9223372036854775807", "9223372036854775808", "-9223372036854775809", "18446744073709551615",
+              "18446744073709551616", "18446744073709551617", "-18446744073709551628", "36893488147419103233",
+              "340282366920938463463374607431768211457", "000000000000000000000000000012", "99999999999999999999"] {
         v.push(Expr::Str(s.to_string()));
     }
     v.push(Expr::Array(vec![]));
